@@ -3591,3 +3591,151 @@ pub mod verif_hooks {
         }
     }
 }
+
+/// Verification hooks (only with `--cfg scylla_verif`): pass-throughs to the crate-private
+/// keyspace-name validation (`VerifiedKeyspaceName::new`), to the check of a `USE` response
+/// (`Connection::verify_use_keyspace_result`) and to the aggregation of per-connection /
+/// per-node `USE` results (`cluster::use_keyspace_result`). Nothing here changes the wrapped code.
+#[cfg(scylla_verif)]
+#[allow(missing_docs)]
+pub mod verif_keyspace_hooks {
+    use super::{Connection, VerifiedKeyspaceName};
+    use crate::errors::{
+        BadKeyspaceName, BrokenConnectionErrorKind, DbError, RequestAttemptError, UseKeyspaceError,
+    };
+    use crate::frame::response::result::{ResultWithDeserializedMetadata, SetKeyspace};
+    use crate::frame::response::{
+        ResponseWithDeserializedMetadataV2 as ResponseWithDeserializedMetadata, error,
+    };
+    use crate::response::QueryResponse;
+    use std::time::Duration;
+
+    /// `VerifiedKeyspaceName::new`: on success the stored name and the case-sensitivity flag.
+    pub fn verify_keyspace_name(
+        name: String,
+        case_sensitive: bool,
+    ) -> Result<(String, bool), BadKeyspaceName> {
+        VerifiedKeyspaceName::new(name, case_sensitive)
+            .map(|v| (v.as_str().to_owned(), v.is_case_sensitive))
+    }
+
+    /// A server response to a `USE` statement, as far as `verify_use_keyspace_result` looks at it.
+    #[derive(Debug, Clone)]
+    pub enum VerifUseReply {
+        /// RESULT/SetKeyspace carrying this keyspace name
+        SetKeyspace(String),
+        /// ERROR (Invalid) with this message
+        DbError(String),
+        /// RESULT/Void
+        Void,
+        /// READY
+        Ready,
+    }
+
+    /// `Connection::verify_use_keyspace_result` on a response built from `reply`.
+    pub fn verify_use_keyspace_reply(
+        name: String,
+        case_sensitive: bool,
+        reply: VerifUseReply,
+    ) -> Result<(), UseKeyspaceError> {
+        let verified = VerifiedKeyspaceName::new(name, case_sensitive)?;
+        let response = match reply {
+            VerifUseReply::SetKeyspace(keyspace_name) => ResponseWithDeserializedMetadata::Result(
+                ResultWithDeserializedMetadata::SetKeyspace(SetKeyspace { keyspace_name }),
+            ),
+            VerifUseReply::DbError(reason) => {
+                ResponseWithDeserializedMetadata::Error(error::Error {
+                    error: DbError::Invalid,
+                    reason,
+                })
+            }
+            VerifUseReply::Void => {
+                ResponseWithDeserializedMetadata::Result(ResultWithDeserializedMetadata::Void)
+            }
+            VerifUseReply::Ready => ResponseWithDeserializedMetadata::Ready,
+        };
+        Connection::verify_use_keyspace_result(
+            &verified,
+            QueryResponse {
+                response,
+                tracing_id: None,
+                warnings: Vec::new(),
+                custom_payload: None,
+            },
+        )
+    }
+
+    /// One per-connection (or per-node) outcome handed to `use_keyspace_result`; the tag travels
+    /// inside the error so that the caller can tell WHICH error was returned.
+    #[derive(Debug, Clone, Copy, PartialEq, Eq)]
+    pub enum VerifUseOutcome {
+        Ok,
+        /// `RequestError(BrokenConnectionError(TooManyOrphanedStreamIds(tag)))`
+        Broken(u16),
+        /// `RequestTimeout(tag ms)`
+        Timeout(u16),
+        /// `KeyspaceNameMismatch { expected: tag, result: tag }`
+        Mismatch(u16),
+        /// `RequestError(UnableToAllocStreamId)` (a request error that is not a broken connection)
+        NoStreamId,
+    }
+
+    /// What `use_keyspace_result` returned.
+    #[derive(Debug, Clone, Copy, PartialEq, Eq)]
+    pub enum VerifUseAggregate {
+        Ok,
+        Broken(u16),
+        Timeout(u16),
+        Mismatch(u16),
+        NoStreamId,
+        /// an error none of the outcomes above can produce
+        Unknown,
+    }
+
+    /// `cluster::use_keyspace_result` over the given outcomes (panics on an empty list, like the
+    /// wrapped function, whose contract requires a non-empty iterator).
+    pub fn use_keyspace_result(outcomes: &[VerifUseOutcome]) -> VerifUseAggregate {
+        let results = outcomes.iter().map(|o| match *o {
+            VerifUseOutcome::Ok => Ok(()),
+            VerifUseOutcome::Broken(tag) => Err(UseKeyspaceError::RequestError(
+                RequestAttemptError::BrokenConnectionError(
+                    BrokenConnectionErrorKind::TooManyOrphanedStreamIds(tag).into(),
+                ),
+            )),
+            VerifUseOutcome::Timeout(tag) => Err(UseKeyspaceError::RequestTimeout(
+                Duration::from_millis(tag as u64),
+            )),
+            VerifUseOutcome::Mismatch(tag) => Err(UseKeyspaceError::KeyspaceNameMismatch {
+                expected_keyspace_name_lowercase: tag.to_string(),
+                result_keyspace_name_lowercase: tag.to_string(),
+            }),
+            VerifUseOutcome::NoStreamId => Err(UseKeyspaceError::RequestError(
+                RequestAttemptError::UnableToAllocStreamId,
+            )),
+        });
+        match crate::cluster::use_keyspace_result(results) {
+            Ok(()) => VerifUseAggregate::Ok,
+            Err(UseKeyspaceError::RequestError(RequestAttemptError::BrokenConnectionError(e))) => {
+                match e.downcast_ref::<BrokenConnectionErrorKind>() {
+                    Some(BrokenConnectionErrorKind::TooManyOrphanedStreamIds(tag)) => {
+                        VerifUseAggregate::Broken(*tag)
+                    }
+                    _ => VerifUseAggregate::Unknown,
+                }
+            }
+            Err(UseKeyspaceError::RequestTimeout(d)) => {
+                VerifUseAggregate::Timeout(d.as_millis() as u16)
+            }
+            Err(UseKeyspaceError::KeyspaceNameMismatch {
+                expected_keyspace_name_lowercase,
+                ..
+            }) => expected_keyspace_name_lowercase
+                .parse()
+                .map_or(VerifUseAggregate::Unknown, VerifUseAggregate::Mismatch),
+            Err(UseKeyspaceError::RequestError(RequestAttemptError::UnableToAllocStreamId)) => {
+                VerifUseAggregate::NoStreamId
+            }
+            Err(_) => VerifUseAggregate::Unknown,
+        }
+    }
+}
